@@ -44,7 +44,9 @@ struct VCopier : MockNamedValueCopier {
 VComparator g_cmp; VCopier g_cpy;
 
 char g_slots[16];
-char g_objs[3];                      // [0],[1]: object pool; [2]: an object no expectation names
+char g_objs[4];                      // [0..2]: object pool; [3]: an object no expectation names
+int g_nullObj = -1;                  // the pool index that stands for the NULL object in this scenario (-1: none)
+void* obj_ptr(int idx) { return idx == g_nullObj ? (void*)0 : (void*)&g_objs[idx]; }
 const char* const kRetStr[6] = {"r0", "r1", "r2", "r3", "r4", "r5"};
 const char* const kScope[3] = {"", "a", "b"};
 const char* const kFunc[4] = {"f0", "f1", "f2", "f3"};
@@ -340,6 +342,7 @@ struct Model {
 // ---------------------------------------------------------------------------------------------- decoder
 struct Case {
     FuncSpec fs[4]; int strictMask, iocMode;
+    int nullObj = -1;                           // object index that is the NULL pointer (on both sides), -1 none
     int installStyle = 0;                       // comparator/copier: 0 before the scopes exist, 1 after (propagation), 2 after, as a repository
     int winKind = 0, winTarget = 0; size_t winStart = 0, winLen = 0;   // 1 disable()..enable(), 2 tracing(true)..tracing(false) around calls [winStart, winStart+winLen)
     std::vector<ExpSpec> ex; std::vector<CallSpec> calls;
@@ -450,7 +453,7 @@ void decode(Reader& r, Case& cs) {
         static const int counts[16] = {1, 2, 3, 1, 0, 0, 2, 3, 2, 1, 3, 2, 1, 3, 2, 0};
         e.how = hows[b >> 4]; e.count = counts[b >> 4];
         for (int k = 0; k < 3; k++) e.val[k] = ((b2 >> (2 * k)) & 3) % 3;
-        e.obj = (b2 >> 6) & 1;
+        e.obj = ((b2 >> 6) & 3) % 3;
         e.hasRet = (b3 & 1) != 0 && cs.fs[e.func].ret != R_NONE;
         e.unmod[0] = ((b3 >> 1) & 7) == 7 && !cs.fs[e.func].okind[0]; e.unmod[1] = ((b3 >> 4) & 7) == 7 && !cs.fs[e.func].okind[1];
         for (int k = 0; k < 2; k++) { for (size_t j = 0; j < cs.fs[e.func].osz[k]; j++) e.out[k].push_back((uint8_t)(0x10 * (i + 1) + 8 * k + j)); e.outv[k].content = 0x1000 * (i + 1) + k; }
@@ -465,6 +468,7 @@ void decode(Reader& r, Case& cs) {
     for (int m = 0; m < cs.nmut; m++) { muts[m].kind = r.below(11); muts[m].target = r.u8(); muts[m].aux = r.u8(); }
     // configuration windows: disable()/tracing() around some calls, one expectation declared while its scope is disabled
     uint8_t w = r.u8(), w2 = r.u8(), w3 = r.u8();
+    { static const int nulls[8] = {-1, 0, 1, 3, 0, 2, -1, 0}; cs.nullObj = nulls[w >> 5]; }
     { static const int kinds[8] = {0, 1, 2, 0, 0, 0, 0, 0}; cs.winKind = kinds[w & 7]; static const int targets[4] = {0, 1, 2, 0}; cs.winTarget = targets[(w >> 3) & 3]; }
     if ((w3 & 7) == 1) cs.ex[(size_t)((w3 >> 3) % nexp)].dead = true;
     if (w3 & 0x40) cs.installStyle = 2;
@@ -524,11 +528,11 @@ void decode(Reader& r, Case& cs) {
         case 5: {
             bool had = false;
             for (auto& s : c.steps) if (s.kind == S_OBJ) { had = true;
-                if ((aux & 3) == 0) { s.obj = 2; }                               // an object nobody expects
+                if ((aux & 3) == 0) { s.obj = 3; }                               // an object nobody expects
                 else if ((aux & 3) == 1) { s.obj = -1; label = "omit-object"; }  // no object at all
-                else s.obj ^= 1; }                                               // the other pool object
+                else s.obj = (s.obj + 1 + ((aux >> 2) & 1)) % 3; }               // another pool object
             if (had) { c.steps.erase(std::remove_if(c.steps.begin(), c.steps.end(), [](const Step& s) { return s.kind == S_OBJ && s.obj < 0; }), c.steps.end()); c.mut += "object;"; }
-            else { c.steps.push_back(obj_step(2)); label = "object-on-objectless-function"; c.mut += "object;"; }
+            else { c.steps.push_back(obj_step((aux >> 2) & 3)); label = "object-on-objectless-function"; c.mut += "object;"; }
             break; }
         case 6: c.unknown = true; c.mut += "unknown;"; break;
         case 7: { size_t u = aux % cs.calls.size(); if (u == t) label = "noop(swap:same)"; std::swap(cs.calls[t], cs.calls[u]); break; }
@@ -562,7 +566,7 @@ void decode(Reader& r, Case& cs) {
         }
         if (!c.unknown && !f.objects && ((d >> 4) & 3) == 1) {
             bool has = false; for (auto& s : c.steps) if (s.kind == S_OBJ) has = true;
-            if (!has) c.steps.push_back(obj_step(0));   // object passed to a function whose expectations name none: ignored
+            if (!has) c.steps.push_back(obj_step(d & 3));   // object passed to a function whose expectations name none: ignored
         }
         if (c.steps.size() > 16) c.steps.resize(16);
         size_t k = c.steps.size();
@@ -576,6 +580,7 @@ void decode(Reader& r, Case& cs) {
 
 std::string render(const Case& cs) {
     std::string s = sfmt("strict=%d%d%d ioc=%d install=%d", cs.strictMask & 1, (cs.strictMask >> 1) & 1, (cs.strictMask >> 2) & 1, cs.iocMode, cs.installStyle);
+    if (cs.nullObj >= 0) s += sfmt(" obj%d=NULL", cs.nullObj);
     if (cs.winKind) s += sfmt(" %s(%s) around calls [%zu,%zu)", cs.winKind == 1 ? "disable" : "tracing", cs.winTarget == 0 ? "root" : kScope[cs.winTarget], cs.winStart, cs.winStart + cs.winLen);
     s += ";";
     for (auto& e : cs.ex) {
@@ -797,7 +802,7 @@ void declare_expectations(MockSupport* const sc[3], Case& cs) {
             else if (e.unmod[k]) x.withUnmodifiedOutputParameter(kOut[k]);
             else x.withOutputParameterReturning(kOut[k], e.out[k].data(), e.out[k].size());
         }
-        if (f.objects) x.onObject(&g_objs[e.obj]);
+        if (f.objects) x.onObject(obj_ptr(e.obj));
         if (f.ignoreOther) x.ignoreOtherParameters();
         if (e.hasRet) expect_return(x, f.ret, (int)i);
     }
@@ -806,7 +811,7 @@ void declare_expectations(MockSupport* const sc[3], Case& cs) {
 struct OutBuf { uint8_t bytes[24]; VOut obj; };
 void apply_step(MockActualCall& ac, const Step& s, OutBuf& ob) {
     const char* name = s.name.c_str();
-    if (s.kind == S_OBJ) { ac.onObject(&g_objs[s.obj]); return; }
+    if (s.kind == S_OBJ) { ac.onObject(obj_ptr(s.obj)); return; }
     if (s.kind == S_OUT) { if (s.okind) ac.withOutputParameterOfType("VOut", name, &ob.obj); else ac.withOutputParameter(name, ob.bytes); return; }
     const Val& v = s.v;
     switch (v.type) {
@@ -862,6 +867,7 @@ bool note_features(const Case& cs) {
     if (sc[1] || sc[2]) verif::cls("feature:scopes");
     if (fio) verif::cls("feature:ignore-other-parameters");
     if (fobj) verif::cls("feature:objects");
+    if (fobj && cs.nullObj >= 0 && cs.nullObj < 3) { bool used = false; for (auto& e : cs.ex) if (cs.fs[e.func].objects && e.how != 2 && e.obj == cs.nullObj) used = true; if (used) verif::cls("feature:expectation-on-the-NULL-object"); }
     if (fout) verif::cls("feature:output-parameters");
     if (vout) verif::cls("feature:custom-type-output-with-copier");
     if (mixed) verif::cls("feature:mixed-integer-kinds");
@@ -921,6 +927,7 @@ int run_case(Reader& r, bool& nontrivial, std::string& desc) {
     if (verif::g_explain) fprintf(stderr, "CASE %s\n", desc.c_str());
     nontrivial = note_features(cs);
     verif::cls("mode:direct");
+    g_nullObj = cs.nullObj;
 
     // -------- set up the real scenario
     RecReporter rep;
@@ -1101,6 +1108,7 @@ struct PluginTest { Case cs; int own; std::string desc; bool leftoverAtStart; };
 void plugin_body(void* arg) {
     PluginTest& t = *(PluginTest*)arg;
     Case& cs = t.cs;
+    g_nullObj = cs.nullObj;
     if (mock().expectedCallsLeft()) t.leftoverAtStart = true;
     MockSupport* sc[3] = {&mock(), &mock("a"), &mock("b")};
     for (int s = 0; s < 3; s++) if (cs.strictMask & (1 << s)) sc[s]->strictOrder();
